@@ -96,6 +96,11 @@ def oracle(path, recursive, reverse, start, end, inc_drf, inc_dmd, inc_drfp, inc
 def compare(path, kw, out, fails, tag):
     start = kw.get("starttime")
     end = kw.get("endtime")
+    # endpoints are instants: a naive datetime is documented as UTC, an aware one keeps its instant whatever its offset
+    if start is not None and start.tzinfo is None:
+        start = start.replace(tzinfo=datetime.timezone.utc)
+    if end is not None and end.tzinfo is None:
+        end = end.replace(tzinfo=datetime.timezone.utc)
     s_ms = None if start is None else int(round((start - EPOCH).total_seconds() * 1000))
     e_ms = None if end is None else int(round((end - EPOCH).total_seconds() * 1000))
     chans = oracle(path, kw.get("recursive", True), kw.get("reverse", False), s_ms, e_ms, kw.get("include_drf", True),
@@ -216,6 +221,17 @@ def rnd_kwargs(rnd, times):
         kw["endtime"] = EPOCH + datetime.timedelta(milliseconds=tm())
     if "starttime" in kw and "endtime" in kw and kw["endtime"] < kw["starttime"]:
         kw["starttime"], kw["endtime"] = kw["endtime"], kw["starttime"]
+    # the same instants given in another time zone, or naive (= UTC)
+    r = rnd.random()
+    if r < 0.3:
+        tz = datetime.timezone(datetime.timedelta(minutes=rnd.choice([120, -300, 330, -60, 540])))
+        for k in ("starttime", "endtime"):
+            if k in kw:
+                kw[k] = kw[k].astimezone(tz)
+    elif r < 0.4:
+        for k in ("starttime", "endtime"):
+            if k in kw:
+                kw[k] = kw[k].replace(tzinfo=None)
     if rnd.random() < 0.35:
         kw["reverse"] = True
     if rnd.random() < 0.15:
